@@ -540,8 +540,10 @@ impl Translator {
             | FuncKind::ForeignFunctionWrapper { .. }
             | FuncKind::HostFunctionWrapper(_) => {
                 st.return_stack.pop();
-                let SolvedType::Function(_, out_ty) = func_ty else { unreachable!() };
-                if *out_ty == SolvedType::Void {
+                // for a generic function, the type this instance was compiled for
+                let instance_ty = desc.overload_ty.as_ref().unwrap_or(&func_ty);
+                let SolvedType::Function(_, out_ty) = instance_ty else { unreachable!() };
+                if **out_ty == SolvedType::Void {
                     self.emit(st, Instr::ReturnVoid);
                 } else {
                     self.emit(st, Instr::Return(nargs as u32));
